@@ -19,7 +19,7 @@ if [ -n "$MUT_ROOT" ]; then
   # the *committed* state of /verif (git archive HEAD), so that work in progress in the working
   # directory cannot break a sensitivity run; build output lives in $MUT_ROOT/target
   rm -rf "$MUT_ROOT/verif"; mkdir -p "$MUT_ROOT/verif"
-  git -C "$ROOT" archive HEAD | tar -x -C "$MUT_ROOT/verif" || exit 2
+  git -C "$ROOT" archive "${MUT_VERIF_REV:-HEAD}" | tar -x -C "$MUT_ROOT/verif" || exit 2
   REPO="$MUT_ROOT/repo"; ROOT="$MUT_ROOT/verif"
   export CARGO_TARGET_DIR="$MUT_ROOT/target"
 fi
